@@ -14,7 +14,9 @@ for log in sys.argv[2:]:
         if m:
             ver[m.group(1)] = m.group(2)
 EXTRA = {"C11/m3": ["C01"], "C03/m2": ["C17"], "C03/m3": ["C17"], "C10/m1": ["C02"], "C04/m1": ["C17"], "C01/m2": ["C02"]}
-if SUFFIX.startswith("r8"):
+if SUFFIX.startswith("r9"):
+    EXTRA = {"C05/m1": ["C16"], "C17/m1": ["C16"]}
+elif SUFFIX.startswith("r8"):
     EXTRA = {"C04/m1": ["C15"], "C03/m1": ["C08"]}
 elif SUFFIX.startswith("r7"):
     EXTRA = {"C07/m1": ["C18"], "C08/m2": ["C09"], "C11/m1": ["C12"], "C19/m1": ["C12"]}
@@ -57,7 +59,7 @@ def one(item):
         if mm:
             keys = re.findall(r"#\s*([^:\s][^ ]*?):\s", mm.group(3))
             det[mm.group(1)] = {"rc": int(mm.group(2)), "first_report": mm.group(3)[:300]}
-    new = {"id": sid, "property": prop, "origin": "independent sub-agent (given only the property text and a scratch worktree)" + (", eighth round (the other ten properties; same brief as the seventh)" if SUFFIX.startswith("r8") else ", seventh round (ten properties; told which mechanisms the earlier rounds had used; half of the effort on behaviour of the unchanged tree)" if SUFFIX.startswith("r7") else ", sixth round (told which mechanisms the earlier rounds had used; asked for changes reachable from the command line and for behaviour of the unchanged tree that already breaks the property)" if SUFFIX.startswith("r6") else ", fifth round (told which mechanisms the earlier rounds had used; asked for changes reachable from the command line)" if SUFFIX.startswith("r5") else ", fourth round (told which mechanisms the earlier rounds had used)" if SUFFIX.startswith("r4") else ", third round (told which mechanisms the earlier rounds had used)" if SUFFIX.startswith("r3") else ", second round (told which mechanisms round one had used)" if SUFFIX else ""),
+    new = {"id": sid, "property": prop, "origin": "independent sub-agent (given only the property text and a scratch worktree)" + (", ninth round (eight properties, one change each, twelve-minute brief)" if SUFFIX.startswith("r9") else ", eighth round (the other ten properties; same brief as the seventh)" if SUFFIX.startswith("r8") else ", seventh round (ten properties; told which mechanisms the earlier rounds had used; half of the effort on behaviour of the unchanged tree)" if SUFFIX.startswith("r7") else ", sixth round (told which mechanisms the earlier rounds had used; asked for changes reachable from the command line and for behaviour of the unchanged tree that already breaks the property)" if SUFFIX.startswith("r6") else ", fifth round (told which mechanisms the earlier rounds had used; asked for changes reachable from the command line)" if SUFFIX.startswith("r5") else ", fourth round (told which mechanisms the earlier rounds had used)" if SUFFIX.startswith("r4") else ", third round (told which mechanisms the earlier rounds had used)" if SUFFIX.startswith("r3") else ", second round (told which mechanisms round one had used)" if SUFFIX else ""),
            "summary": meta.get("summary"), "needs_to_manifest": meta.get("needs"), "files": meta.get("files"),
            "verified_by_me": {"how": "tools/verify_seed.sh: scratch worktree of /repo HEAD, git apply, demo on clean and patched tree, pinned baseline with the patch",
                               "result": v},
